@@ -49,6 +49,7 @@ def run_rules(program: Program, pid: str, tier: str, only_rule: Optional[str] = 
     cfgmod.clear_cache()
     dataflow.clear_cache()
     ctx = Ctx(program, tier)
+    ctx.pid = pid
     obs: list[Ob] = []
     summary = []
     try:
@@ -165,10 +166,11 @@ def check_property(pid: str, tier: str = 'quick', seed: int = 0, repo: Optional[
     if write_evidence:
         write_evidence_file(pid, tier, seed, obs, ctx, summary, program, known_hits, new_violations, errors,
                             wall, extra)
-    if errors:
-        return 2
+    # a reported violation is the verdict even when another rule lost its anchor on the same tree
     if new_violations:
         return 1
+    if errors:
+        return 2
     return 0
 
 
